@@ -90,6 +90,14 @@ func TestC07RoundTrip(t *testing.T) {
 				enc.SetLevel(level)
 			}
 			p := gen.DrawPayload(t, fmt.Sprintf("data%d", s), maxLen)
+			if rapid.IntRange(0, 39).Draw(t, "huge?") == 0 { // rarely an input above 1 MiB (window / buffer limits of the libraries)
+				n := rapid.SampledFrom([]int{1 << 20, 1<<20 + 8, 1<<20 + 70000, 3 << 19, 3 << 20}).Draw(t, "hugelen")
+				p = gen.DrawPayloadN(t, fmt.Sprintf("data%d", s), n, ">1MiB")
+			}
+			if len(p.Data) == 0 && rapid.Bool().Draw(t, "nil-input") {
+				p.Data = nil // an empty input may just as well be a nil slice
+				evid.Class("nil-input")
+			}
 			orig := append([]byte(nil), p.Data...)
 			scratch, bcls := drawScratch(t, len(p.Data))
 			w := &countWriter{}
